@@ -338,6 +338,9 @@ func verifDecodeCase(o *vout, kind string, data []byte) {
 		row["code"] = verifErrKind(err)
 	} else {
 		row["code"] = 0
+		if len(orig) > 0 && orig[0] != 1 {
+			mon = append(mon, fmt.Sprintf("the decoder accepted an encoding whose version byte is %d (the wire format's version is 1)", orig[0]))
+		}
 		re, _ := v.Marshal()
 		row["re"] = hex.EncodeToString(re)
 		row["plen"] = len(v.Payload)
@@ -376,7 +379,12 @@ func TestVerifC05(t *testing.T) {
 		if secs < 0 || secs >= 1<<32 { // property range: 32-bit whole-second timestamp
 			v.Timestamp = time.Unix(int64(uint32(secs)), 0)
 		}
-		enc, _ := v.Marshal()
+		enc, merr := v.Marshal()
+		if merr != nil || len(enc) == 0 {
+			// the property's range: non-empty payload, at most 255 signatures, 32-bit whole-second timestamp — every such VAA has an encoding
+			o.emit(map[string]interface{}{"k": "rt", "plen": plen, "nsig": ns, "in": "", "mon": []string{fmt.Sprintf("Marshal failed for a representable VAA (%d signatures, payload of %d bytes): %v", ns, plen, merr)}})
+			continue
+		}
 		// (a) decode(encode v) = v, same digest
 		mon := []string{}
 		d, err := Unmarshal(enc)
@@ -417,9 +425,12 @@ func TestVerifC05(t *testing.T) {
 				verifDecodeCase(o, "truncate", enc[:c])
 			}
 		}
+		for _, vb := range []byte{0, 2, 255, byte(r.next())} {
+			m := append([]byte{}, enc...)
+			m[0] = vb
+			verifDecodeCase(o, "version", m)
+		}
 		m := append([]byte{}, enc...)
-		m[0] = byte(r.next())
-		verifDecodeCase(o, "version", m)
 		m = append([]byte{}, enc...)
 		m[5] = byte(int(m[5]) + 1 + r.below(3))
 		verifDecodeCase(o, "sigcount+", m)
